@@ -94,7 +94,7 @@ def scenarios(ctx):
                    budgets=dict(common, pub=2, ack=2, tick=3)))
     out.append(Std('pub-connecting', profile='pub', mode='sync', connects=[(True, 0, 4), (False, 0, 4)],
                    reconnects=[(False, 0, 4)], pub_qos=(1, 2),
-                   budgets=dict(common, connect=2, connack=2, pub=2, ack=2, tick=3)))
+                   budgets=dict(common, connect=2, connack=2, badconnack=1, pub=2, ack=2, tick=3)))
     out.append(Std('sub-clean', profile='sub', mode='async', init=CONNECTED + (('setwin', 0, 2),),
                    reconnects=[(True, 0, 4)],
                    budgets=dict(common, sub=1, unsub=1, ack=2, dack=1, disconnect=1, inpub=1, inrel=1),
